@@ -297,6 +297,33 @@ impl Session {
                         e.alt.extend(self.held_for(&[a]));
                     }
                 }
+                // is there a longer range `init` would have had to offer first?
+                let syms = ed.symbols();
+                let is_syl = |i: usize| syms.get(i).is_some_and(|s| s.is_syllable());
+                let key_of = |b: usize, e: usize| -> Vec<Syllable> { syms[b..e].iter().filter_map(|s| s.to_syllable()).collect() };
+                if info.forward {
+                    let mut limit = info.orig.min(syms.len());
+                    while limit < syms.len() && is_syl(limit) {
+                        limit += 1;
+                    }
+                    for e2 in info.end + 1..=limit {
+                        if (info.begin..e2).all(is_syl) && !self.held_for(&key_of(info.begin, e2)).is_empty() {
+                            e.longer = Some((info.begin, e2));
+                        }
+                    }
+                } else {
+                    let sel_ends: Vec<usize> = step::selections(snap).iter().map(|s| s.1).collect();
+                    let gaps = step::gaps(snap);
+                    let mut lo = info.orig.min(syms.len());
+                    while lo > 0 && !sel_ends.contains(&lo) && gaps.get(lo) != Some(&'K') && is_syl(lo - 1) {
+                        lo -= 1;
+                    }
+                    for b2 in lo..info.begin {
+                        if (b2..info.end).all(is_syl) && !self.held_for(&key_of(b2, info.end)).is_empty() {
+                            e.longer = Some((b2, info.end));
+                        }
+                    }
+                }
                 v.expect = Some(e);
             }
         }
